@@ -53,8 +53,7 @@ mutual
 end
 
 mutual
-  /-- every element count fits the 32-bit count word, and no section of a compound curve is empty
-  (an empty section is 9 bytes, but the reader's `minMemSize` demands 16 bytes per section) -/
+  /-- every element count fits the 32-bit count word -/
   def Fits : G → Bool
     | .point _ => true
     | .lineString s => s.pts.length < 4294967296
@@ -62,7 +61,7 @@ mutual
     | .circularString s => s.pts.length < 4294967296
     | .polygon sh hs => sh.pts.length < 4294967296 && hs.all (fun r => r.pts.length < 4294967296)
         && hs.length + 1 < 4294967296
-    | .compoundCurve gs => gs.length < 4294967296 && FitsL gs && gs.all (fun g => !gIsEmpty g)
+    | .compoundCurve gs => gs.length < 4294967296 && FitsL gs
     | .curvePolygon gs => gs.length < 4294967296 && FitsL gs
     | .multiPoint gs => gs.length < 4294967296 && FitsL gs
     | .multiLineString gs => gs.length < 4294967296 && FitsL gs
